@@ -24,17 +24,28 @@ Definition step (op : list tok) : list tok :=
   | TS name :: args =>
     if name =? "consts" then [tn_nat max_fds_out; tn_nat max_bytes_out]
     else if name =? "bb" then []      (* black-box run: no model observation *)
-    else if name =? "xfer" then
+    else if (name =? "xfer") || (name =? "raw") then
+      let is_raw := name =? "raw" in
       match args with
       | TN h :: TN t :: TN c :: TN u :: rest =>
+        let '(nfds, cut, rest) :=
+          if is_raw then match rest with TN f :: TN k :: r => (Some (Z.to_nat f), Z.to_nat k, r) | _ => (None, O, rest) end
+          else (None, O, rest) in
         let a := bytes_of rest in
         let h := Z.to_nat h in let t := Z.to_nat t in let c := Z.to_nat c in
-        let l := mkl (firstn h a) (firstn t (skipn h a)) (firstn c (skipn (h + t) a)) (skipn (h + t + c) a) in
-        match transfer l with
-        | ROk g => [TS "ok"; tn_nat (List.length (http g)); tn_nat (List.length (tls g));
-                    tn_nat (List.length (tcp g)); tn_nat (List.length (udp g)); tn_bool (paired_ok l g)]
-        | RErr e => [TS "err"; TS (err_name e)]
-        end
+        let l := mkl (firstn h a) (firstn t (skipn h a)) (firstn c (skipn (h + t)%nat a)) (skipn (h + t + c)%nat a) in
+        let nf := match nfds with Some f => f | None => count l end in
+        if Nat.ltb scm_max_fd nf then [TS "err"; TS "send"]
+        else
+          let msg := firstn (List.length (encode l) - Nat.min cut (List.length (body l)))%nat (encode l) in
+          let fds := seq 0 nf in
+          let '(r, closed) := receive_acct msg fds in
+          let leaked := (List.length fds - List.length (held_after r) - List.length closed)%nat in
+          match r with
+          | ROk g => [TS "ok"; tn_nat (List.length (http g)); tn_nat (List.length (tls g));
+                      tn_nat (List.length (tcp g)); tn_nat (List.length (udp g)); tn_bool (paired_ok l g); tn_nat leaked]
+          | RErr e => [TS "err"; TS (err_name e); tn_nat leaked]
+          end
       | _ => [TS "badop"]
       end
     else [TS "badop"]
